@@ -41,6 +41,9 @@ func runC20(c any, x *kit.Ctx) {
 		dw = deferred.NewDeferredCarWriterForStream(drvPlain{&dbuf}, roots, opts...)
 	}
 	x.Eval(1)
+	// release the lazily opened file even when the sequence never closes the writer
+	// (millions of cases would otherwise exhaust the file descriptors before the GC runs finalizers)
+	defer dw.Close()
 	// reference: a directly constructed writer, created at the first Put
 	var direct storage.WritableCar
 	var rf *os.File
